@@ -1,0 +1,141 @@
+//go:build verif
+
+package main
+
+// Executable specifications used by the bounded checks of the verification machinery in /verif.
+// Compiled only with the build tag verif; nothing here is reachable from the server.
+
+import (
+	"strings"
+)
+
+// verifNthString enumerates the strings over alphabet in length-lexicographic order: 0 is "", then all strings of
+// length 1, and so on.
+func verifNthString(n int, alphabet string) string {
+	k := len(alphabet)
+	length, block := 0, 1
+	for n >= block {
+		n -= block
+		block *= k
+		length++
+	}
+	b := make([]byte, length)
+	for i := length - 1; i >= 0; i-- {
+		b[i] = alphabet[n%k]
+		n /= k
+	}
+	return string(b)
+}
+
+// verifRefParseSearch is the query language of the 'fnd' topic written down from its documentation: terms are
+// separated by runs of spaces, tabs and commas; a run containing a comma means OR, otherwise AND, and a term is an
+// OR-term if the run before or after it contains a comma (OR binds tighter than AND); a term in double quotes is taken
+// literally (it may contain separators); malformed queries are rejected: an unterminated quote, two commas in one
+// separator run, a quote glued to a word on either side.
+func verifRefParseSearch(query string) (and [][]string, or []string, ok bool) {
+	q := strings.TrimSpace(query)
+	type term struct {
+		val         string
+		commaBefore bool
+		commaAfter  bool
+	}
+	var terms []term
+	isSep := func(c byte) bool { return c == ' ' || c == '\t' || c == ',' }
+	i := 0
+	pendingComma := false
+	for i < len(q) {
+		c := q[i]
+		switch {
+		case isSep(c):
+			commas := 0
+			for i < len(q) && isSep(q[i]) {
+				if q[i] == ',' {
+					commas++
+				}
+				i++
+			}
+			if commas > 1 {
+				return nil, nil, false
+			}
+			if commas == 1 {
+				if len(terms) > 0 {
+					terms[len(terms)-1].commaAfter = true
+				}
+				pendingComma = true
+			} else {
+				pendingComma = false
+			}
+		case c == '"':
+			j := strings.IndexByte(q[i+1:], '"')
+			if j < 0 {
+				return nil, nil, false
+			}
+			val := q[i+1 : i+1+j]
+			i = i + 1 + j + 1
+			if i < len(q) && !isSep(q[i]) {
+				// a quote glued to a word: "a"b
+				return nil, nil, false
+			}
+			terms = append(terms, term{val: val, commaBefore: pendingComma})
+			pendingComma = false
+		default:
+			j := i
+			for j < len(q) && !isSep(q[j]) {
+				if q[j] == '"' {
+					// a quote glued to a word: a"b
+					return nil, nil, false
+				}
+				j++
+			}
+			terms = append(terms, term{val: q[i:j], commaBefore: pendingComma})
+			pendingComma = false
+			i = j
+		}
+	}
+	for _, t := range terms {
+		if t.val == "" {
+			continue
+		}
+		orig := strings.ToLower(t.val)
+		rew := rewriteTag(orig, "", false)
+		if rew == "" {
+			continue
+		}
+		vals := []string{orig}
+		if rew != orig {
+			vals = append(vals, rew)
+		}
+		if t.commaBefore || t.commaAfter {
+			or = append(or, vals...)
+		} else {
+			and = append(and, vals)
+		}
+	}
+	return and, or, true
+}
+
+// verifSearchAgrees: the real parser accepts exactly the queries of the reference and returns the same terms.
+func verifSearchAgrees(q string) bool {
+	and, or, err := parseSearchQuery(q, "", false)
+	rand, ror, ok := verifRefParseSearch(q)
+	if (err == nil) != ok {
+		return false
+	}
+	if !ok {
+		return true
+	}
+	if len(and) != len(rand) || len(or) != len(ror) {
+		return false
+	}
+	for i := range and {
+		if strings.Join(and[i], "\x00") != strings.Join(rand[i], "\x00") {
+			return false
+		}
+	}
+	for i := range or {
+		if or[i] != ror[i] {
+			return false
+		}
+	}
+	return true
+}
